@@ -67,8 +67,14 @@ def select__pi_kind_test(self: XPathFunction, context: ta.ContextType = None) \
 def nud__pi_kind_test(self: XPathFunction) -> XPathFunction:
     self.parser.advance('(')
     if self.parser.next_token.symbol != ')':
-        self.parser.next_token.expected('(name)', '(string)')
-        self[0:] = self.parser.expression(5),
+        if self.parser.next_token.symbol not in ('(name)', '(string)') and \
+                self.parser.name_pattern.match(self.parser.next_token.symbol) is not None:
+            # Any NCName is a PI target, also keywords and function names (e.g. pi, div)
+            self.parser.advance()
+            self[0:] = self.parser.token.as_name(),
+        else:
+            self.parser.next_token.expected('(name)', '(string)')
+            self[0:] = self.parser.expression(5),
     self.parser.advance(')')
     return self
 
